@@ -83,6 +83,26 @@ func init() {
 				}
 			}
 			sharedCopy := append([]byte{}, shared...)
+			// one rejected input per goroutine, each failing at another field or in another way (a known field with a wire
+			// type it does not accept, a cut inside the input); what each call reports is taken sequentially first
+			fields := ti.S.Msgs[ti.MI].Fields
+			malformed := make([][]byte, g)
+			malSt := make([]string, g)
+			for j := 0; j < g; j++ {
+				mal := append([]byte{}, shared...)
+				if len(fields) > 0 && j%3 != 2 {
+					f := fields[(i+j)%len(fields)]
+					wt := protowire.Fixed32Type
+					if k := f.Kind; k == KFixed32 || k == KSfixed32 || k == KFloat {
+						wt = protowire.VarintType
+					}
+					mal = append(protowire.AppendTag(mal, protowire.Number(f.Num), wt), 1, 2, 3, 4, byte(j))
+				} else if len(mal) > 1 {
+					mal = mal[:1+(j*7)%(len(mal)-1)]
+				}
+				malformed[j] = mal
+				malSt[j] = safeUnmarshal(mal, ti.New())
+			}
 			for j := 0; j < g; j++ {
 				wg.Add(1)
 				go func(j int) {
@@ -115,6 +135,11 @@ func init() {
 					xv, _ := u.read(ti, x)
 					if st != seqSt || (xv != nil && seqVal != nil && xv.String() != seqVal.String()) {
 						results[j] = "unmarshal-differs:" + st
+						return
+					}
+					// concurrent Unmarshal of rejected inputs, a different one in every goroutine
+					if st := safeUnmarshal(malformed[j], ti.New()); st != malSt[j] {
+						results[j] = "unmarshal-of-rejected-input-differs: " + st + " / sequentially " + malSt[j]
 						return
 					}
 					// time conversions
